@@ -14,6 +14,7 @@ from pyrepseq.metric import WeightedLevenshtein  # noqa: E402
 from pyrepseq.metric import tcr_metric as TM  # noqa: E402
 
 PROPERTY = "C15"
+QUICK_SCALE = 3
 RULE = ("graph: neighbour lists produced by the search functions themselves (nearest_neighbor / kdtree / hash_based, Levenshtein "
         "or Hamming mode, k=1..2) on clonal-family repertoires with duplicates at d=0, isolated nodes and sometimes no neighbour "
         "at all, passed as list of tuples or ndarray; nodes as list / ndarray / Series with string index; methods cc, "
@@ -184,6 +185,10 @@ def graph_case(draw, tier="quick"):
     if engine == "hash_based":
         k = 1
     seqs = draw(G.clonal_family(alpha=alpha, max_size=30, founder_len=(3, 9), max_edits=2, allow_empty=False))
+    if draw(st.booleans()):
+        # isolated nodes: far from everything else
+        seqs = list(seqs) + ["W" * 14, "Y" * 17][: draw(st.integers(1, 2))]
+        seqs = list(draw(st.permutations(seqs)))
     if draw(st.integers(0, 5)) == 0:
         # no neighbour at all: pairwise far-apart sequences
         seqs = [c * (3 + 3 * i) for i, c in enumerate("ACDEF"[:draw(st.integers(1, 5))])]
